@@ -161,6 +161,14 @@ Definition consistent1 (st : store) (acc : bool) (r : req) : bool :=
                 end
   end.
 
+(* the recorded topology, the admitted objects and the consistency flag along a history *)
+Fixpoint hist_state (s : topo) (st : store) (cons : bool) (rs : list req) : topo * store * bool :=
+  match rs with
+  | [] => (s, st, cons)
+  | r :: t => hist_state (step s r) (store_step st (accepted s r) r)
+                         (cons && consistent1 st (accepted s r) r) t
+  end.
+
 (* N1: every namespace an admitted object declares is bound to that object;
    N2: every binding is declared by the admitted object it points to *)
 Definition NsOK (st : store) (s : topo) : Prop :=
